@@ -206,11 +206,12 @@ Proof.
 Qed.
 
 Lemma encode_packet_abs env pl c pt ssrc base f sn :
-  fst (encode_packet_s true env pl c pt ssrc base f sn) = encode_packet (abs_cov c) pt ssrc base f sn.
+  fst (encode_packet_s true true env pl c pt ssrc base f sn) = encode_packet (abs_cov c) pt ssrc base f sn.
 Proof.
   unfold encode_packet_s, encode_packet, row. cbn [abs_cov c_masks c_nm c_media].
   destruct (MaxFecPackets <=? f); [reflexivity|].
   destruct (covered_idx _ _) as [|i idx] eqn:Ei; [reflexivity|].
+  cbn [negb andb].
   match goal with |- context [fec_payload_s true ?b ?ps ?bs ?x ?y ?z] =>
     pose proof (scratch_irrelevant b ps bs x y z) as S; destruct (fec_payload_s true b ps bs x y z) as [payload back] end.
   cbn [fst] in *. subst payload. do 3 f_equal.
@@ -218,22 +219,22 @@ Proof.
 Qed.
 
 Lemma encode_loop_abs env c pt ssrc base fs : forall pl sn,
-  fst (encode_loop_s true env pl c pt ssrc base fs sn) = encode_loop (abs_cov c) pt ssrc base fs sn.
+  fst (encode_loop_s true true env pl c pt ssrc base fs sn) = encode_loop (abs_cov c) pt ssrc base fs sn.
 Proof.
   induction fs as [|f fs IH]; intros pl sn; [reflexivity|].
   cbn [encode_loop_s encode_loop].
   pose proof (encode_packet_abs env pl c pt ssrc base f sn) as P.
-  destruct (encode_packet_s true env pl c pt ssrc base f sn) as [r pl']. cbn [fst] in P. subst r.
+  destruct (encode_packet_s true true env pl c pt ssrc base f sn) as [r pl']. cbn [fst] in P. subst r.
   destruct (encode_packet (abs_cov c) pt ssrc base f sn) as [[r|]|].
   - specialize (IH pl' (add16 sn 1)).
-    destruct (encode_loop_s true env pl' c pt ssrc base fs (add16 sn 1)) as [q pl'']. cbn [fst] in IH. subst q.
+    destruct (encode_loop_s true true env pl' c pt ssrc base fs (add16 sn 1)) as [q pl'']. cbn [fst] in IH. subst q.
     destruct (encode_loop _ _ _ _ _ _) as [[? ?]|]; reflexivity.
   - apply IH.
   - reflexivity.
 Qed.
 
 Theorem encode_fec_s_abs env pl e ms n :
-  (abs_enc (fst (fst (encode_fec_s true env pl e ms n))), snd (fst (encode_fec_s true env pl e ms n)))
+  (abs_enc (fst (fst (encode_fec_s true true env pl e ms n))), snd (fst (encode_fec_s true true env pl e ms n)))
   = encode_fec2 (abs_enc e) (map wire ms) n.
 Proof.
   unfold encode_fec2, encode_fec, encode_fec_gen, encode_fec_s. rewrite zlen_map.
@@ -250,20 +251,20 @@ Proof.
   rewrite <- C. clear C.
   destruct (match es_cov e with None => _ | Some c => _ end) as [c|]; cbn [option_map]; [|reflexivity].
   replace (Z.min (Z.min n MaxFecPackets) 111) with (Z.min n MaxFecPackets) by (unfold MaxFecPackets; lia).
-  match goal with |- context [encode_loop_s true env pl c ?a ?b ?d ?fs ?sn] =>
+  match goal with |- context [encode_loop_s true true env pl c ?a ?b ?d ?fs ?sn] =>
     pose proof (encode_loop_abs env c a b d fs pl sn) as L;
-    destruct (encode_loop_s true env pl c a b d fs sn) as [q pl'] end.
+    destruct (encode_loop_s true true env pl c a b d fs sn) as [q pl'] end.
   cbn [fst] in L. subst q.
   destruct (encode_loop _ _ _ _ _ _) as [[? ?]|]; reflexivity.
 Qed.
 
 Theorem run_batches_s_abs env bs : forall pl e,
-  run_batches_s true env pl e bs = run_batches2 (abs_enc e) (map (fun b => (map wire (fst b), snd b)) bs).
+  run_batches_s true true env pl e bs = run_batches2 (abs_enc e) (map (fun b => (map wire (fst b), snd b)) bs).
 Proof.
   induction bs as [|[ms n] bs IH]; intros pl e; [reflexivity|].
   cbn [run_batches_s run_batches2 map fst snd].
   pose proof (encode_fec_s_abs env pl e ms n) as A.
-  destruct (encode_fec_s true env pl e ms n) as [[e' r] pl']. cbn [fst snd] in A. rewrite <- A.
+  destruct (encode_fec_s true true env pl e ms n) as [[e' r] pl']. cbn [fst snd] in A. rewrite <- A.
   destruct r as [[rs|]|]; f_equal; apply IH.
 Qed.
 
@@ -272,7 +273,7 @@ Definition enc_inv_s (e : enc_s) : Prop := enc_inv (abs_enc e).
 Lemma new_encoder_s_inv pt ssrc : enc_inv_s (new_encoder_s pt ssrc).
 Proof. exact I. Qed.
 
-Lemma encode_fec_s_inv env pl e ms n : enc_inv_s e -> enc_inv_s (fst (fst (encode_fec_s true env pl e ms n))).
+Lemma encode_fec_s_inv env pl e ms n : enc_inv_s e -> enc_inv_s (fst (fst (encode_fec_s true true env pl e ms n))).
 Proof.
   intros I. unfold enc_inv_s.
   pose proof (encode_fec_s_abs env pl e ms n) as A. apply (f_equal fst) in A. cbn [fst] in A. rewrite A.
@@ -282,7 +283,7 @@ Qed.
 (* end to end over structured packets: any pool, any reachable state, any n >= 1 *)
 Theorem recover_structured env pl e ms n e' rs pl' :
   enc_inv_s e -> media_ok (map wire ms) -> 1 <= n ->
-  encode_fec_s true env pl e ms n = (e', Ok (Some rs), pl') ->
+  encode_fec_s true true env pl e ms n = (e', Ok (Some rs), pl') ->
   (forall r, In r rs ->
     exists h, parse03 (r_payload r) = Some h /\ f_pos h <> [] /\
               forall pos, In pos (f_pos h) ->
@@ -409,7 +410,7 @@ Definition ms3 : list mpkt :=
 
 Lemma example_structured :
   media_ok (map wire ms3) /\ accepts2 (map wire ms3) 4294967295 /\
-  match encode_fec_s true (fun _ _ => repeat 255 20) (0%nat, []) (new_encoder_s 115 7) ms3 4294967295 with
+  match encode_fec_s true true (fun _ _ => repeat 255 20) (0%nat, []) (new_encoder_s 115 7) ms3 4294967295 with
   | (_, Ok (Some [r0; r1; r2]), _) =>
       option_map f_pos (parse03 (r_payload r0)) = Some [0] /\
       option_map f_pos (parse03 (r_payload r2)) = Some [2] /\ r_sn r2 = 1002
@@ -432,4 +433,55 @@ Theorem unclamped_111_refuted :
   i_run (new_icpt 2 111 115 7 [17; 34; 51; 68]) two_pkts = [Ok [OMedia (hdr12 128 7 ++ [9])]; Panic].
 Proof.
   split; [vm_compute; reflexivity|]. split; [do 2 eexists; vm_compute; reflexivity|vm_compute; reflexivity].
+Qed.
+
+(* ------------------------------------------------------------------ *)
+(* 9. the code before "fix: ... protects packets whose padding is carried in the payload": an accepted
+   batch (plain packet, packet with its padding inside the payload, PaddingSize 5), one FEC packet -
+   EncodeFec answers with an empty list, nothing is protected (the code with the fix returns one repair
+   packet); with two FEC packets only the repair packet of packets 0 and 2 comes out, packet 1 is
+   protected by nothing *)
+Theorem unfixed_padding_in_payload_refuted :
+  media_ok (map wire ms3) /\ accepts2 (map wire ms3) 1 /\
+  snd (fst (encode_fec_s true false (fun _ b => b) (0%nat, []) (new_encoder_s 115 7) ms3 1)) = Ok (Some []) /\
+  (exists r, snd (fst (encode_fec_s true true (fun _ b => b) (0%nat, []) (new_encoder_s 115 7) ms3 1)) = Ok (Some [r])) /\
+  (exists r h, snd (fst (encode_fec_s true false (fun _ b => b) (0%nat, []) (new_encoder_s 115 7) ms3 2)) = Ok (Some [r]) /\
+               parse03 (r_payload r) = Some h /\ f_pos h = [0; 2]).
+Proof.
+  split; [exact (proj1 example_structured)|].
+  split; [repeat split; vm_compute; intuition discriminate|].
+  split; [vm_compute; reflexivity|].
+  split; [eexists; vm_compute; reflexivity|].
+  do 2 eexists. split; [vm_compute; reflexivity|]. split; vm_compute; reflexivity.
+Qed.
+
+(* ------------------------------------------------------------------ *)
+(* 10. interceptor over structured packets and the shared pool = interceptor on wire bytes *)
+Definition abs_is (s : icpt_s) : icpt :=
+  {| i_nm := is_nm s; i_nf := is_nf s; i_ssrc := is_ssrc s; i_enc := abs_enc (is_enc s); i_buf := map wire (is_buf s) |}.
+
+Lemma is_write_abs env pl s p :
+  abs_is (fst (fst (is_write env pl s p))) = fst (i_write2 (abs_is s) (wire p)) /\
+  snd (fst (is_write env pl s p)) = snd (i_write2 (abs_is s) (wire p)).
+Proof.
+  unfold is_write, i_write2. cbn [abs_is i_ssrc i_buf i_nm i_nf i_enc].
+  destruct (negb _); [split; reflexivity|].
+  replace (map wire (is_buf s) ++ [wire p]) with (map wire (is_buf s ++ [p])) by (rewrite map_app; reflexivity).
+  rewrite zlen_map.
+  destruct (zlen (is_buf s ++ [p]) =? is_nm s).
+  - pose proof (encode_fec_s_abs env pl (is_enc s) (is_buf s ++ [p]) (is_nf s)) as A.
+    destruct (encode_fec_s true true env pl (is_enc s) (is_buf s ++ [p]) (is_nf s)) as [[e' r] pl'].
+    cbn [fst snd] in A. rewrite <- A.
+    destruct r as [[rs|]|]; split; reflexivity.
+  - split; reflexivity.
+Qed.
+
+Theorem is_run_abs env ws : forall pl s, is_run env pl s ws = i_run2 (abs_is s) (map wire ws).
+Proof.
+  induction ws as [|p ws IH]; intros pl s; [reflexivity|].
+  cbn [is_run i_run2 map].
+  destruct (is_write_abs env pl s p) as [A R].
+  destruct (is_write env pl s p) as [[s' r] pl']. cbn [fst snd] in *.
+  destruct (i_write2 (abs_is s) (wire p)) as [t r']. cbn [fst snd] in *. subst r' t.
+  destruct r; f_equal. apply IH.
 Qed.
